@@ -167,10 +167,16 @@ def run_c20(tier, seed):
                 violations.append((rp, 'm14', cfg, rule, exp, got))
     # ---- part 3: basic_polymorphic exercised directly
     polyruns = 8 if tier == 'quick' else 64
+    from concurrent.futures import ThreadPoolExecutor
+
+    def poly_run(k):
+        return subprocess.run([pb, str(seed * 1000 + k), '20000' if tier == 'quick' else '100000'], stdout=subprocess.PIPE,
+                              stderr=subprocess.PIPE, text=True, env=dict(os.environ, **SAN_ENV))
+    with ThreadPoolExecutor(max_workers=16) as ex:
+        poly_res = list(ex.map(poly_run, range(polyruns)))
     for k in range(polyruns):
         ev.evaluations += 1
-        p = subprocess.run([pb, str(seed * 1000 + k), '20000' if tier == 'quick' else '100000'], stdout=subprocess.PIPE,
-                           stderr=subprocess.PIPE, text=True, env=dict(os.environ, **SAN_ENV))
+        p = poly_res[k]
         if p.returncode != 0 or 'POLY' not in p.stdout:
             rp = engine.write_replay(prop, {'kind': 'c20poly', 'property': prop, 'seed': seed * 1000 + k,
                                             'rule': 'basic-polymorphic', 'expected': 'clean', 'got': (p.stdout + p.stderr)[-2000:]})
